@@ -526,7 +526,8 @@ def guard_adequacy(rep, prog, rule, floor_sites=100):
             key = "%s|%s(%s)" % (f.name, short(c.name), fmt(idx)[:30])
             if rem is None:
                 a = cursor_alignment(f, sym, loops, dom, c, idx)
-                if (a is None or a[1] != a[0]) and starts_at_window(sym, idx):
+                mismatch = a is not None and isinstance(a[1], int) and a[1] != a[0]
+                if (a is None or a[1] != a[0]) and not mismatch and starts_at_window(sym, idx):
                     left = coefficients_left(sym, facts)
                     if left is not None:
                         a = (left, left, "coeff", 0)
@@ -543,7 +544,13 @@ def guard_adequacy(rep, prog, rule, floor_sites=100):
                 n_chunk, step, kind, off = a
                 slack = window_slack(sym, facts, buf, idx) if kind == "coeff" else 0
                 what = "coefficients" if kind == "coeff" else "destination components"
-                if step != n_chunk:
+                if isinstance(step, int) and step != n_chunk:
+                    rep.bad(rule, key + "|cursor-step", c.at, "the loop takes %d %s per iteration "
+                            "but advances the source index of %s by %d element(s): from the second "
+                            "iteration on, %s and source elements are paired with the wrong "
+                            "partner (the portable code pairs element start + i with item i)"
+                            % (n_chunk, what, short(c.name), step, what))
+                elif step != n_chunk:
                     rep.unk(rule, key, c.at, "index advances by %s per chunk of %s %s"
                             % (step, n_chunk, what))
                 elif w + off * es <= (n_chunk + slack) * es:
